@@ -137,6 +137,8 @@ HAND_SOURCES: List[List[str]] = [
     ["x {2} pieces = chop(1.5 kg onion)\nfry(0.5 * x {2} pieces)\nboil(rest of the x {2.0} pieces)"],
     ["a = 2 eggs\nb = fry(a)\nc := boil(b)\nserve(c)"],
     ["p, q, r = split(1 kg rice)\nmix(p, q)", "fry(r, 1/2 of p)"],
+    ['"10cm tin" = grease(1 mould, 5g butter)\nfill("10cm tin", 300g "type 00 flour", cut into {8} pieces of 12cm)'],
+    ["mix 1 = whisk(2 eggs)\nmix 2 = stir(1/2 of mix 1, 3 eggs no 7)\nbake at 180(mix 2, 1/2 of mix 1)"],
 ]
 
 
@@ -381,7 +383,7 @@ def recipe_case(bs: Any, tag: str) -> Case:
 
 # ---------------------------------------------------------------- generators of constructions (as JSON)
 
-NAMES = ["spam", "eggs", "sauce", "veg", "water", "Dough", "x", "é ü"]
+NAMES = ["spam", "eggs", "sauce", "veg", "water", "Dough", "x", "é ü", "2 eggs", "tin 10cm", "7"]
 
 
 def g_num(rng: random.Random) -> Any:
